@@ -227,6 +227,9 @@ impl Turnstile {
         if n == 0 {
             return;
         }
+        if n + 8 > crate::PHYSICAL_POOL {
+            die(&format!("parallel section of {n} tasks exceeds the physical pool"));
+        }
         let mut g = self.inner.lock().unwrap();
         if g.current != Some(key) {
             return;
